@@ -165,7 +165,13 @@ def psi_tables(ctx):
                 if not re.match(r"^Oomd::Util::split\(var:toks(@\d+)?\[%d\], 61\)$|^Oomd::Util::split\(Oomd::Util::split\(.*\)\[%d\], 61\)$" % (pos + 1, pos + 1), src):
                     ok = False
                     why.append("%s comes from %s (expected token %d)" % (var, src[:60], pos + 1))
-                if not any(p is True and k in ('("%s" == %s[0])' % (key, var), '(%s[0] == "%s")' % (var, key)) for k, p in g):
+                def expand_key(k_):
+                    def sub(m_):
+                        i2, v2 = local_init(f, m_.group(1), must=False)
+                        return (X(i2) if v2 is not None and i2 is not None and i2 >= 0 else m_.group(1)) + "[0]"
+                    return re.sub(r"\b([A-Za-z_]\w*)\[0\]", sub, k_)
+                tested = any(p is True and expand_key(k) in ('("%s" == %s[0])' % (key, src), '(%s[0] == "%s")' % (src, key)) for k, p in g if isinstance(k, str))
+                if not tested:
                     ok = False
                     why.append("no test %s[0] == \"%s\" dominates" % (var, key))
             ctx.check(ok, "psi:upstream-token-to-field", "table agreement (token / key / field)", f.loc(r),
